@@ -25,10 +25,10 @@ import (
 	"go.temporal.io/server/api/adminservice/v1"
 	"go.temporal.io/server/common/log"
 	"google.golang.org/grpc"
-	"google.golang.org/grpc/credentials/insecure"
 
 	"github.com/temporalio/s2s-proxy/config"
 	vrt "github.com/temporalio/s2s-proxy/internal/verifrt"
+	"github.com/temporalio/s2s-proxy/metrics"
 	"github.com/temporalio/s2s-proxy/transport/grpcutil"
 	"github.com/temporalio/s2s-proxy/transport/mux/session"
 )
@@ -66,6 +66,20 @@ type vfSessWrap struct {
 }
 
 func (w *vfSessWrap) Open() (net.Conn, error) {
+	w.e.smu.Lock()
+	stall := w.e.stalled[w.id]
+	w.e.smu.Unlock()
+	if stall != nil {
+		select {
+		case <-stall:
+		default:
+			// the peer has stopped accepting streams (its accept backlog is full): opening a stream blocks until the
+			// session ends
+			w.e.logf("Open on session %s blocks (peer does not accept streams)", w.id)
+			<-stall
+			return nil, yamux.ErrSessionShutdown
+		}
+	}
 	if w.e.failOpen[w.id] > 0 {
 		w.e.failOpen[w.id]--
 		w.e.logf("Open on session %s fails once (transient)", w.id)
@@ -170,6 +184,38 @@ type vfCCExec struct {
 	degraded map[string]bool
 	faults   int
 	idled    bool
+	// stalled[id]: Open on that session blocks until the channel is closed (session ended / teardown)
+	smu     sync.Mutex
+	stalled map[string]chan struct{}
+}
+
+func (e *vfCCExec) release(id string) {
+	e.smu.Lock()
+	defer e.smu.Unlock()
+	for k, ch := range e.stalled {
+		if id == "" || k == id {
+			select {
+			case <-ch:
+			default:
+				close(ch)
+			}
+		}
+	}
+}
+
+func (e *vfCCExec) isStalled(id string) bool {
+	e.smu.Lock()
+	defer e.smu.Unlock()
+	ch := e.stalled[id]
+	if ch == nil {
+		return false
+	}
+	select {
+	case <-ch:
+		return false
+	default:
+		return true
+	}
 }
 
 func (e *vfCCExec) violate(sig, detail string) {
@@ -183,11 +229,13 @@ func (e *vfCCExec) violate(sig, detail string) {
 func (e *vfCCExec) logf(f string, a ...any) { e.events = append(e.events, fmt.Sprintf(f, a...)) }
 
 func vfNewCCExec(sc vfCCScenario) *vfCCExec {
-	e := &vfCCExec{sc: sc, idToPeer: map[string]int{}, failOpen: map[string]int{}, degraded: map[string]bool{}}
+	e := &vfCCExec{sc: sc, idToPeer: map[string]int{}, failOpen: map[string]int{}, degraded: map[string]bool{}, stalled: map[string]chan struct{}{}}
 	lifetime, cancel := context.WithCancel(context.Background())
 	e.cancel = cancel
 	logger := log.NewNoopLogger()
-	mcc, err := grpcutil.NewMultiClientConn(lifetime, "verif", grpc.WithTransportCredentials(insecure.NewCredentials()))
+	// as proxy/cluster_connection.go createClient builds it: name "client-conn-<connection name>" (here a connection
+	// name with digits in it) and the production dial options (round_robin over the sessions, the repairing codec)
+	mcc, err := grpcutil.NewMultiClientConn(lifetime, "client-conn-cluster-10", grpcutil.MakeDialOptions(nil, metrics.GetGRPCClientMetrics("outbound"))...)
 	if err != nil {
 		panic(err)
 	}
@@ -345,7 +393,18 @@ func (e *vfCCExec) rpc() {
 		synctest.Wait()
 	}
 	e.logf("rpc: served by %q err=%v (live peers %v)", served, lastErr, live)
-	if len(live) > 0 {
+	usable := 0
+	for _, id := range e.liveIDs() {
+		if pi, ok := e.idToPeer[id]; ok && !e.peers[pi].killed && !e.isStalled(id) {
+			usable++
+		}
+	}
+	if len(live) > 0 && usable == 0 {
+		// every live session has a peer that does not accept streams: a call may fail, but may only be served by a live one
+		if served != "" && !live[served] {
+			e.violate("rpc/served-over-unregistered-session", fmt.Sprintf("call answered by %s, live registered sessions are %v", served, live))
+		}
+	} else if len(live) > 0 {
 		if served == "" {
 			e.violate("rpc/fails-although-a-session-is-live", fmt.Sprintf("live sessions to %v, but 3 calls (2 s deadline each, 2 s apart) all failed: %v", live, lastErr))
 		} else if !live[served] {
@@ -383,6 +442,9 @@ func (e *vfCCExec) enabled() []string {
 			}
 			if pi, ok := e.idToPeer[id]; ok && !e.peers[pi].killed {
 				out = append(out, fmt.Sprintf("bounce:%d", pi))
+				if !e.isStalled(id) {
+					out = append(out, "stall:"+id)
+				}
 			}
 		}
 	}
@@ -407,6 +469,7 @@ func (e *vfCCExec) apply(a string) error {
 			e.peers[pi].closedLocally = true
 		}
 		s.Close()
+		e.release(f[1])
 	case "killPeer":
 		var i int
 		fmt.Sscan(f[1], &i)
@@ -416,6 +479,28 @@ func (e *vfCCExec) apply(a string) error {
 		p.srv.Stop()
 		_ = p.sess.Close()
 		_ = p.conn.Close()
+		for id, pi := range e.idToPeer {
+			if pi == i {
+				e.release(id)
+			}
+		}
+	case "stall":
+		// the peer of this session stops accepting streams while the session stays up, and its gRPC server restarts:
+		// the client's transport on the session ends, gRPC dials the endpoint again and that dial stays pending
+		pi, ok := e.idToPeer[f[1]]
+		if !ok || e.peers[pi].killed {
+			return fmt.Errorf("action %s not enabled", a)
+		}
+		e.faults++
+		e.smu.Lock()
+		e.stalled[f[1]] = make(chan struct{})
+		e.smu.Unlock()
+		p := e.peers[pi]
+		e.logf("%s stops accepting streams on session %s (session stays up); its transport ends", p.name, f[1])
+		p.srv.Stop()
+		p.srv = grpc.NewServer()
+		adminservice.RegisterAdminServiceServer(p.srv, &vfEchoAdmin{name: p.name})
+		go func(srv *grpc.Server, l net.Listener) { _ = srv.Serve(l) }(p.srv, p.listener())
 	case "rpc":
 		e.rpc()
 	case "idle":
@@ -462,9 +547,15 @@ func (e *vfCCExec) key() string {
 			fo = append(fo, id)
 		}
 	}
+	var st []string
+	for _, id := range e.liveIDs() {
+		if e.isStalled(id) {
+			st = append(st, id)
+		}
+	}
 	sort.Strings(deg)
 	sort.Strings(fo)
-	fmt.Fprintf(&sb, "live=%v waiting=%v rpcs=%d faults=%d degraded=%v failOpen=%v idled=%v|", e.liveIDs(), e.waiting(), e.rpcs, e.faults, deg, fo, e.idled)
+	fmt.Fprintf(&sb, "live=%v waiting=%v rpcs=%d faults=%d degraded=%v failOpen=%v stalled=%v idled=%v|", e.liveIDs(), e.waiting(), e.rpcs, e.faults, deg, fo, st, e.idled)
 	for i, p := range e.peers {
 		fmt.Fprintf(&sb, "%d:%v,", i, p.killed)
 	}
@@ -484,27 +575,52 @@ func vfRunCC(t *testing.T, job *vfCCJob) (out vfPoolOut) {
 			e := vfNewCCExec(job.Sc)
 			synctest.Wait()
 			e.consistency("initially")
+			// every step runs under a watchdog in virtual time: a step that has not completed after 3 hours (the longest action, idle, takes 31 minutes) is stuck
+			// (the rewritten locks park, so a goroutine waiting for a lock nobody releases does not stop the clock)
+			step := func(what string, f func()) bool {
+				fin := make(chan struct{})
+				go func() { defer close(fin); f() }()
+				tm := time.NewTimer(3 * time.Hour)
+				defer tm.Stop()
+				select {
+				case <-fin:
+					return true
+				case <-tm.C:
+					e.violate("stuck/session-list-update-blocked", fmt.Sprintf("%s has not completed after 3 hours of virtual time; goroutines waiting for a lock: %v", what, vrt.BlockedLockers()))
+					e.release("")
+					<-fin
+					return false
+				}
+			}
 			for _, a := range job.Path {
-				if err := e.apply(a); err != nil {
-					out.Err = err.Error()
+				ok := step("action "+a, func() {
+					if err := e.apply(a); err != nil {
+						out.Err = err.Error()
+						return
+					}
+					synctest.Wait()
+					e.settle()
+					e.consistency("after " + a)
+				})
+				if !ok || out.Err != "" {
 					break
 				}
-				synctest.Wait()
-				e.settle()
-				e.consistency("after " + a)
 			}
-			if out.Err == "" {
-				out.Key = e.key()
-				out.Enabled = e.enabled()
-				// closing: a call in the state reached, then (if nothing is live) a new session appears and calls resume
-				e.rpc()
-				if len(e.livePeerNames()) == 0 && e.waiting() {
-					e.add()
-					synctest.Wait()
-					e.consistency("after a new session appeared")
+			if out.Err == "" && len(e.viol) == 0 {
+				step("the closing calls", func() {
+					out.Key = e.key()
+					out.Enabled = e.enabled()
+					// closing: a call in the state reached, then (if nothing is live) a new session appears and calls resume
 					e.rpc()
-				}
+					if len(e.livePeerNames()) == 0 && e.waiting() {
+						e.add()
+						synctest.Wait()
+						e.consistency("after a new session appeared")
+						e.rpc()
+					}
+				})
 			}
+			e.release("")
 			e.cancel()
 			for _, p := range e.peers {
 				p.srv.Stop()
@@ -649,8 +765,9 @@ func TestVerifC11(t *testing.T) {
 	res.Set("distinct_outcomes", int64(len(outcomes)))
 	res.Set("exhaustive", exhaustive && len(harnessErrs) == 0)
 	res.Set("harness_errors", harnessErrs)
-	res.Set("alphabet", "add (new yamux session with a gRPC echo server behind it), closeLocal(id), killPeer(i), rpc (DescribeCluster, up to 3 tries of 2 s each 2 s apart), idle (31 minutes without calls, once), and up to max_faults of: degrade(id) (the session's health state reads Error while it stays up), failOpen(id) (its next Open fails once), bounce(i) (the peer's gRPC server restarts on the same session, so the client redials); after every path a closing rpc and, if nothing is live, a new session followed by an rpc")
+	res.Set("alphabet", "add (new yamux session with a gRPC echo server behind it), closeLocal(id), killPeer(i), rpc (DescribeCluster, up to 3 tries of 2 s each 2 s apart), idle (31 minutes without calls, once), and up to max_faults of: degrade(id) (the session's health state reads Error while it stays up), failOpen(id) (its next Open fails once), bounce(i) (the peer's gRPC server restarts on the same session, so the client redials), stall(id) (the peer stops accepting streams while the session stays up and its transport ends: the redial stays pending until the session ends); after every path a closing rpc and, if nothing is live, a new session followed by an rpc")
 	res.Set("explanation", "every transition runs the real multiMuxManager (listener = real MultiClientConn.OnConnectionListUpdate; second family: built by the real NewGRPCMuxManager with the real establisher over an in-memory network), real yamux and a real grpc.ClientConn/Server pair in a synctest bubble; after every action the dialable endpoint set is compared with the registered sessions and CanMakeCalls; no separate model")
 	res.Sample(map[string]any{"pool_size": sc.Size, "states": states})
+	res.Assume("the client connection is built as createClient builds it (name client-conn-<connection name>, production dial options: round_robin); every step runs under a 3-hour virtual-time watchdog (rewritten locks park instead of blocking the clock)")
 	res.Assume("gRPC and yamux internals run free (in virtual time) between actions; a call is given 3 tries within 10 s of virtual time before 'fails although a session is live' is reported")
 }
